@@ -28,7 +28,7 @@ NewCase(e) ==
   \* are read back from the (constant) trace at End -- TLC fingerprints the whole state at
   \* every step, so a 300-entry tree in the state makes a 2000-event case quadratic.
   [active |-> TRUE, beginL |-> l, mode |-> e.mode, differ |-> e.differ, realS |-> e.realS, realR |-> e.realR,
-   metaOnly |-> e.metaOnly,
+   metaOnly |-> e.metaOnly, hostile |-> "hostile" \in DOMAIN e,
    srcExact |-> "srcExact" \in DOMAIN e /\ e.srcExact,
    nStats |-> 0, lastP |-> <<>>, fileIds |-> {}, plainIds |-> {}, uncleanStat |-> FALSE, ended |-> FALSE,
    s2r |-> <<>>, r2s |-> <<>>,
@@ -68,6 +68,12 @@ SEnd(c, e) ==
   <<[c EXCEPT !.ended = TRUE, !.s2r = Append(@, [type |-> "STAT", end |-> TRUE])],
     IF c.realS THEN Cl(c.ended, "C06.endMarkerTwice") ELSE {}>>
 
+\* requests delivered to the sender that must make the call fail
+BadReqs(c) == \E i \in DOMAIN c.sReqLog :
+                \/ c.sReqLog[i] >= c.nStats
+                \/ c.sReqLog[i] \notin c.fileIds
+                \/ \E j \in 1..(i - 1) : c.sReqLog[j] = c.sReqLog[i]
+
 SReqIds(c) == {c.sReqLog[i] : i \in DOMAIN c.sReqLog}
 
 SData(c, e) ==
@@ -84,7 +90,11 @@ SFin(c, e) ==
     IF c.realS THEN Cl(~c.sFinSeen, "C06.finNotAnEcho") \cup Cl(c.sFinEchoed, "C06.finTwice") ELSE {}>>
 
 SOther(c, e) == <<[c EXCEPT !.s2r = Append(@, [type |-> e.type])],
-                  IF c.realS /\ e.type = "REQ" THEN {"C06.senderSentRequest"} ELSE {}>>
+                  IF ~c.realS THEN {}
+                  ELSE Cl(e.type = "REQ", "C06.senderSentRequest")
+                       \* the sender reports an error of its own although nothing went wrong around it
+                       \cup Cl(e.type = "ERR" /\ c.faults = 0 /\ ~BadReqs(c) /\ ~c.sErrSeen /\ ~c.sEofSeen /\ ~c.tornR /\ c.retR = "none",
+                               "C06.failedWithoutCause")>>
 
 \* ---- receiver emits --------------------------------------------------------
 RReq(c, e) ==
@@ -104,7 +114,11 @@ RFin(c, e) ==
        IF c.realR THEN bad ELSE {}>>
 
 ROther(c, e) == <<[c EXCEPT !.r2s = Append(@, [type |-> e.type])],
-                  IF c.realR /\ e.type \in {"STAT", "DATA"} THEN {"C07.receiverSentStatOrData"} ELSE {}>>
+                  IF ~c.realR THEN {}
+                  ELSE Cl(e.type \in {"STAT", "DATA"}, "C07.receiverSentStatOrData")
+                       \* the receiver reports an error of its own although the stream so far was valid and nothing failed
+                       \cup Cl(e.type = "ERR" /\ c.faults = 0 /\ ~c.rMustFail /\ ~c.rEof /\ ~c.tornS /\ c.retS = "none" /\ ~c.uncleanStat
+                               /\ ~c.hostile, "C07.failedWithoutCause")>>
 
 \* ---- deliveries --------------------------------------------------------------
 DlvR(c, e) ==
@@ -133,12 +147,6 @@ Prog(c, e) ==
   IF e.side # "S" THEN <<c, {}>>
   ELSE <<[c EXCEPT !.pS = [v |-> e.v, final |-> @.final \/ e.last]],
          IF c.realS THEN Cl(e.v < c.pS.v, "C06.progressDecreased") \cup Cl(c.pS.final, "C06.progressAfterFinalCall") ELSE {}>>
-
-\* requests delivered to the sender that must make the call fail
-BadReqs(c) == \E i \in DOMAIN c.sReqLog :
-                \/ c.sReqLog[i] >= c.nStats
-                \/ c.sReqLog[i] \notin c.fileIds
-                \/ \E j \in 1..(i - 1) : c.sReqLog[j] = c.sReqLog[i]
 
 Ret(c, e) ==
   IF e.side = "S"
@@ -292,7 +300,10 @@ EndClauses(c, e) ==
         ELSE Pfx("C01", IF merge THEN OverlayClauses(view, after, before) ELSE ConvergedClauses(view, after, before))
              \cup Pfx("C02", Cl(~ReqOK(reqs, view, before, c.differ, merge), "contentRequestSet")
                              \cup (IF merge \/ c.differ = "none" THEN {} ELSE KeptClauses(view, after, before))
-                             \cup (IF merge THEN {} ELSE RewrittenClauses(view, after, before)))
+                             \cup (IF merge THEN {} ELSE RewrittenClauses(view, after, before))
+                             \* after the transfer a re-diff finds nothing: every identity difference was applied
+                             \cup (IF merge THEN {} ELSE Cl(Len(after) = Len(view) /\ (Changed(view, after) # {} \/ Deleted(view, after) # {}),
+                                                         "destinationStillDiffersAfterSync")))
              \cup Pfx("C02", Cl(~merge /\ c.differ = "metadata" /\ Changed(view, before) = {} /\ Deleted(view, before) = {}
                                 /\ (notes # <<>> \/ c.rReq # {}), "resyncOfUnchangedSourceNotSilent"))
              \cup Pfx("C07", Cl(~ReqOK(reqs, view, before, c.differ, merge), "contentRequestSet"))
@@ -367,7 +378,7 @@ Consume(c, e) ==
          [] e.ev = "Quiesce" -> <<[c EXCEPT !.faults = @ + 1],
                                   Cl(c.faults = 0 /\ c.realS /\ ~e.sReturned, "C06.senderStuckWithConformingPeer")
                                   \cup Cl(c.faults = 0 /\ c.realR /\ ~e.rReturned, "C07.receiverStuckWithConformingPeer")
-                                  \cup Cl(c.faults = 0 /\ c.realS /\ c.realR, "C11.faultFreeTransferStuck")>>
+                                  \cup (IF c.faults = 0 /\ c.realS /\ c.realR THEN {"C11.faultFreeTransferStuck", "C08.transferStuckUnderSchedule"} ELSE {})>>
          [] e.ev = "EnvTearDown" -> <<c, {}>>
          [] e.ev = "Leak" -> <<c, {"C04.goroutineLeak"}>>
          [] e.ev = "End" -> <<NoCase, EndClauses(c, e)>>
